@@ -29,7 +29,7 @@ type jv struct {
 }
 
 var nastyRunes = []rune{'a', 'Z', '0', ' ', '"', '\\', '/', '\b', '\f', '\n', '\r', '\t', 0x01, 0x1f, 0x7f, 0x80, 0xe9, 0x7ff, 0x800,
-	0x20ac, 0xd7ff, 0xe000, 0xfb33, 0xfffd, 0xffff, 0x10000, 0x1f602, 0x10ffff, '<', '>', '&', 0x2028, 0x2029}
+	0x20ac, 0xd7ff, 0xe000, 0xfb33, 0xfffd, 0xffff, 0x10000, 0x1f602, 0x10ffff, '<', '>', '&', 0x2028, 0x2029, 0x00}
 
 func randString(r *rand.Rand, maxLen int) string {
 	n := r.Intn(maxLen + 1)
@@ -279,9 +279,20 @@ func genC05(seed int64, tier string) []caseOut {
 	}
 	r := rand.New(rand.NewSource(seed))
 	var out []caseOut
-	for i := 0; i < n; i++ {
+	// systematic part: every special character (U+0000 first) in a member name, in a string, as a
+	// whole name next to its prefix, in each of the three spellings
+	var fixed []*jv
+	for _, c := range []rune{0x00, 0x01, 0x08, 0x0c, 0x1f, '"', '\\', '/', 0x7f, 0x80, 0x2028, 0xd7ff, 0xe000, 0xffff, 0x10000, 0x10ffff} {
+		str := func(x string) *jv { return &jv{kind: "str", s: x} }
+		cs := string(c)
+		fixed = append(fixed, &jv{kind: "obj", keys: []string{"k" + cs, "k", cs, "k" + cs + "z"},
+			vals: []*jv{str("v" + cs + "v"), str(cs), {kind: "arr", arr: []*jv{str(cs + cs), str("")}}, str(cs + "end")}})
+	}
+	for i := -len(fixed); i < n; i++ {
 		var v *jv
-		if r.Intn(4) == 0 {
+		if i < 0 {
+			v = fixed[i+len(fixed)]
+		} else if r.Intn(4) == 0 {
 			v = &jv{kind: "arr"}
 			for j := 1 + r.Intn(4); j > 0; j-- {
 				v.arr = append(v.arr, randValue(r, 2))
@@ -290,6 +301,9 @@ func genC05(seed int64, tier string) []caseOut {
 			v = randObject(r, 3)
 		}
 		label := "value"
+		if i < 0 {
+			label = "systematic,special-character"
+		}
 		var ins, outs []string
 		var items []string
 		idem := true
